@@ -49,40 +49,52 @@ package server
 //@     before call (*commands.*).Execute* | (*commands.*).ListUsers | listusers.*.ListUsers | (*listusers.*).ListUsers | storage.*.* | (*server.Server).resolveTypesystem | (*server.Server).v2Check | (*server.Server).shadowV2Check : assert authzOK
 
 //@ func (*Server).BatchCheck(s, ctx, req) (res, err)
-//@   property C26
+//@   property C26 C10 C07
 //@   option nosafety
 //@   option stable req
 //@   monitor authzBeforeData
 //@     ghost authzOK = false
 //@     after call (*server.Server).checkAuthz args _, _, st, m returning e : authzOK = authzOK || (e == nil && st == req.GetStoreId() && m == "BatchCheck")
 //@     before call (*commands.*).Execute* | (*commands.*).ListUsers | listusers.*.ListUsers | (*listusers.*).ListUsers | storage.*.* | (*server.Server).resolveTypesystem | (*server.Server).v2Check | (*server.Server).shadowV2Check : assert authzOK
+//@   option monitor_props requestWiring=C10,C07
+//@   monitor requestWiring
+//@     before call (*commands.BatchCheckQuery).Execute args _, _, p : assert p != nil && p.StoreID == req.GetStoreId() && p.Checks == req.GetChecks() && p.Consistency == req.GetConsistency()
 
 //@ func (*Server).Check(s, ctx, req) (res, err)
-//@   property C26
+//@   property C26 C10 C04
 //@   option nosafety
 //@   option stable req
 //@   monitor authzBeforeData
 //@     ghost authzOK = false
 //@     after call (*server.Server).checkAuthz args _, _, st, m returning e : authzOK = authzOK || (e == nil && st == req.GetStoreId() && m == "Check")
 //@     before call (*commands.*).Execute* | (*commands.*).ListUsers | listusers.*.ListUsers | (*listusers.*).ListUsers | storage.*.* | (*server.Server).resolveTypesystem | (*server.Server).v2Check | (*server.Server).shadowV2Check : assert authzOK
+//@   option monitor_props requestWiring=C10,C04
+//@   monitor requestWiring
+//@     before call (*commands.CheckQuery).Execute args _, _, p : assert p != nil && p.StoreID == req.GetStoreId() && p.TupleKey == req.GetTupleKey() && p.ContextualTuples == req.GetContextualTuples() && p.Context == req.GetContext() && p.Consistency == req.GetConsistency()
 
 //@ func (*Server).Expand(s, ctx, req) (res, err)
-//@   property C26
+//@   property C26 C10 C04 C30
 //@   option nosafety
 //@   option stable req
 //@   monitor authzBeforeData
 //@     ghost authzOK = false
 //@     after call (*server.Server).checkAuthz args _, _, st, m returning e : authzOK = authzOK || (e == nil && st == req.GetStoreId() && m == "Expand")
 //@     before call (*commands.*).Execute* | (*commands.*).ListUsers | listusers.*.ListUsers | (*listusers.*).ListUsers | storage.*.* | (*server.Server).resolveTypesystem | (*server.Server).v2Check | (*server.Server).shadowV2Check : assert authzOK
+//@   option monitor_props requestWiring=C10,C04,C30
+//@   monitor requestWiring
+//@     before call (*commands.ExpandQuery).Execute args _, _, r : assert r != nil && r.StoreId == req.GetStoreId() && r.ContextualTuples == req.GetContextualTuples() && r.Consistency == req.GetConsistency()
 
 //@ func (*Server).ListObjects(s, ctx, req) (res, err)
-//@   property C26
+//@   property C26 C10 C04 C05
 //@   option nosafety
 //@   option stable req
 //@   monitor authzBeforeData
 //@     ghost authzOK = false
 //@     after call (*server.Server).checkAuthz args _, _, st, m returning e : authzOK = authzOK || (e == nil && st == req.GetStoreId() && m == "ListObjects")
 //@     before call (*commands.*).Execute* | (*commands.*).ListUsers | listusers.*.ListUsers | (*listusers.*).ListUsers | storage.*.* | (*server.Server).resolveTypesystem | (*server.Server).v2Check | (*server.Server).shadowV2Check : assert authzOK
+//@   option monitor_props requestWiring=C10,C04,C05
+//@   monitor requestWiring
+//@     before call (*commands.ListObjectsQuery).Execute args _, _, r : assert r != nil && r.StoreId == req.GetStoreId() && r.ContextualTuples == req.GetContextualTuples() && r.Context == req.GetContext() && r.User == req.GetUser() && r.Relation == req.GetRelation() && r.Consistency == req.GetConsistency()
 
 //@ func (*Server).ListUsers(s, ctx, req) (res, err)
 //@   property C26
